@@ -1,7 +1,12 @@
 import Driver.Lb
 import Driver.LbSpec
+import Driver.Dial
 def main (args : List String) : IO UInt32 := do
   match args with
   | ["lb"] => Driver.Lb.main; return 0
   | ["lbspec", ops, impl] => Driver.LbSpec.main ops impl; return 0
+  | ["dial"] => Driver.Dial.main Netpoll.Dial.fixedCfg; return 0
+  | ["dial-d13"] => Driver.Dial.main Netpoll.Dial.d13Cfg; return 0
+  | ["dialspec", impl] => Driver.Dial.specMain impl; return 0
+  | ["dialadmit"] => Driver.Dial.admitMain Netpoll.Dial.fixedCfg; return 0
   | _ => IO.eprintln "usage: npdriver lb | lbspec <ops> <impl>"; return 2
